@@ -338,6 +338,32 @@ fn getter_lines(g: &mut Gen, s: Size, all: bool) {
     }
 }
 
+/// `==` between the matrix and the result of an operation on a clone: operations that must give
+/// an equal matrix (no-ops), ones that cannot (size changes), and ones that do only on
+/// degenerate data (writing a value that may be there, transposing a symmetric matrix, …)
+fn eq_lines(g: &mut Gen, s: Size, value: u64) {
+    let ops = vec![
+        "retain_mut rows=all cols=all".to_string(),
+        "map_mut 0".to_string(),
+        "map_mut 1".to_string(),
+        "transpose_mut".to_string(),
+        "transpose".to_string(),
+        format!("set 0 0 {} via=set", value),
+        format!("set {} {} {} via=set", s.r - 1, s.c - 1, value),
+        format!("set {} 0 {} via=set", s.r, value),
+        format!("insert_row 0 {}", value),
+        format!("remove_column {}", s.c - 1),
+        format!("fill {}", value),
+        format!("retain rows=not(single(0)) cols=all"),
+        "map_mut 5 panic_at=0".to_string(),
+        "map_mut_with_index 0".to_string(),
+    ];
+    for op in ops {
+        g.op(format!("eq_after {}", op));
+        g.count("query.eq_after");
+    }
+}
+
 /// The slice shapes of the exhaustive alphabet, instantiated at dimension length `n`.
 fn slice_shapes(n: usize) -> Vec<Sl> {
     vec![
@@ -478,6 +504,7 @@ fn gen_exhaustive(g: &mut Gen) {
             g.op("scalar".to_string());
             g.op("try_into_scalar".to_string());
             getter_lines(g, s0, true);
+            eq_lines(g, s0, 1);
             let a1 = alphabet(s0, &mut counter);
             for op in &a1 {
                 count_op(g, op, s0, "exh");
@@ -1042,6 +1069,7 @@ fn gen_degenerate(g: &mut Gen) {
                 s = op.after(s);
             }
             getter_lines(g, s, true);
+            eq_lines(g, s, value.unwrap_or(1));
         }
     }
 }
@@ -1632,6 +1660,23 @@ impl Runner {
                     Err(k) => format!("panic ## kind={}", k.as_str()),
                 },
                 Err(k) => format!("clone-panicked {}", k.as_str()),
+            };
+        }
+        if toks[0] == "eq_after" {
+            let mut copy = match catch(|| m.clone()) {
+                Ok(c) => c,
+                Err(k) => return format!("clone-panicked {}", k.as_str()),
+            };
+            return match apply(&mut copy, &toks[1..]) {
+                Some(_) => {
+                    let (a, b) = (*m == copy, copy == *m);
+                    if a == b {
+                        format!("eq={}", a)
+                    } else {
+                        format!("eq=asymmetric({},{})", a, b)
+                    }
+                }
+                None => "bad-op".into(),
             };
         }
         // an in-place map whose closure may panic: the property only demands that the survivor
